@@ -60,7 +60,7 @@ EwIntKnown(op, t, a, b, imm, r, bad) ==
 Ew2IntBad(op, t, a, b, r) ==
   LET q == SubSeq(r, 1, RowBytes)  rm == SubSeq(r, RowBytes + 1, 2 * RowBytes) IN
   {i \in LaneIdx(t) :
-     ~(op \in {"divmod", "op/%"} /\ DivModRel(TypeTab[t].S, Lane(a, t, i), Lane(b, t, i), Lane(q, t, i), Lane(rm, t, i)))}
+     ~(op \in {"divmod", "op/%", "op/%="} /\ DivModRel(TypeTab[t].S, Lane(a, t, i), Lane(b, t, i), Lane(q, t, i), Lane(rm, t, i)))}
 Ew2IntWith(op, t, a, b, r) ==
   /\ Ew2IntBad(op, t, a, b, r) = {}
   /\ reg' = [reg EXCEPT ![0] = r, ![1] = a, ![2] = b, ![3] = NoRow]
